@@ -1,10 +1,54 @@
-import MazeVerif.DriverOps.Util
+import MazeVerif.DriverOps.C01
+import MazeVerif.DriverOps.C02
+import MazeVerif.Model.Dataset
 namespace MZ.Drv.C03
-open Lean MZ.Drv
+open Lean MZ.Drv MZ MZ.AStar
 
-/-- driver ops of property C03 (`"op": "C03.<name>"`) -/
-def handle (op : String) (_j : Json) : R Json := do
+def getOpts (j : Json) : R EndpointOpts := do
+  let cellsOpt (k : String) : R (Option (List Cell)) := match optFld j k with
+    | none => pure none
+    | some v => do pure (some (← (← v.getArr?).toList.mapM asCell))
+  let b (k : String) : Bool := (optFld j k).map (fun v => v.getBool?.toOption.getD false) |>.getD false
+  pure { allowedStart := ← cellsOpt "allowed_start", allowedEnd := ← cellsOpt "allowed_end",
+         deadendStart := b "deadend_start", deadendEnd := b "deadend_end", notEqual := b "endpoints_not_equal" }
+
+def jItem (r : Except ItemErr (List Cell)) : List (String × Json) :=
+  match r with
+  | .ok p => [("solve", "ok"), ("solution", jCells p)]
+  | .error .illegalEndpoints => [("solve", "illegalEndpoints")]
+  | .error .noPath => [("solve", "noPath")]
+  | .error (.solver r) => [("solve", "solver"), ("detail", C02.jResult r)]
+
+/-- `C03.item`: a `C01.gen` request (generator + tapped draws) plus `opts`, the observed `s`, `e` and A* `picks`:
+    the model regenerates the maze, reads the component off the metadata, checks the endpoint choice is one the code can
+    make and replays the solver.
+    `C03.solve`: the same on a maze given explicitly (`edges`, `component`) — used for items that come out of worker
+    processes, where no tap is possible. -/
+def handle (op : String) (j : Json) : R Json := do
   match op with
+  | "C03.item" =>
+    let rows ← getNat j "rows"; let cols ← getNat j "cols"
+    match ← C01.runGen j with
+    | none => pure (obj [("ok", false)])
+    | some g =>
+      let opts ← getOpts (← fld j "opts")
+      match g.component rows cols with
+      | none => pure (obj ([("ok", Json.bool true), ("component", Json.null)] ++ [("gen", g.toJson)]))
+      | some comp =>
+        let s ← getCell j "s"; let e ← getCell j "e"
+        let picks ← getCells j "picks"
+        let r := solveItem rows cols g.edges comp opts s e picks (rows * cols + 1)
+        pure (obj ([("ok", Json.bool true), ("gen", g.toJson), ("component_size", jNat comp.length),
+                    ("wf", Json.bool (decide (WF rows cols g.edges)))] ++ jItem r))
+  | "C03.solve" =>
+    let rows ← getNat j "rows"; let cols ← getNat j "cols"
+    let E ← getEdges j "edges"
+    let comp ← getCells j "component"
+    let opts ← getOpts (← fld j "opts")
+    let s ← getCell j "s"; let e ← getCell j "e"
+    let picks ← getCells j "picks"
+    pure (obj ([("ok", Json.bool true), ("wf", Json.bool (decide (WF rows cols E)))]
+      ++ jItem (solveItem rows cols E comp opts s e picks (rows * cols + 1))))
   | _ => throw s!"unknown op {op}"
 
 end MZ.Drv.C03
